@@ -83,10 +83,11 @@ def run_symx_check(mod, tier, seed, only=None, procs=None, extra_cov=None, pre_v
             ok, verdict, path = runner.replay_native(cid, spec, "%s_known%d" % (tier, nrep))
             if ok is True:
                 got = mod.classify_known(spec, verdict, known)
-                if got == fid:
-                    what = next(k["what"] for k in known if k["id"] == fid)
-                    n, _ = V.known.get(fid, (0, what))
-                    V.known[fid] = (n + 1, what)
+                if got in {k["id"] for k in known}:
+                    # (regions of two listed findings may overlap: the witness is credited to the one it shows)
+                    what = next(k["what"] for k in known if k["id"] == got)
+                    n, _ = V.known.get(got, (0, what))
+                    V.known[got] = (n + 1, what)
                 else:
                     V.violations.append((path, "[%s] %s" % (r["task"], verdict.get("detail", ""))))
             elif ok is None:
